@@ -19,13 +19,24 @@
      lists); printing the re-parsed tree gives byte-identical text (C01_tree_level0, C01_text_fixpoint_level0);
    - attributes level 3 for trees whose attributes are the bool / int ones (C01_tree_level3_partial), and levels 3 and 2
      for string-valued attributes that are not re-flowed (C01_tree_level3_strings, C01_tree_level2_strings).
+   - DEPRECATED definitions (.deprecated holding a non-empty string, as the parser stores it; domain stree_ok_d,
+     Proofs/ShowReparseDeprecated.v): the level-3 text, with its '# WARNING: deprecated parameter' comment lines,
+     parses back to the whole tree including the deprecated definitions and their .deprecated value
+     (C01_tree_level3_deprecated); the level-2 text parses to the tree without its deprecated definitions
+     (C01_tree_level2_hides_deprecated).  A bool True in .deprecated (no PHIL text parses to it) is read back as
+     the string "True" (ShowReparseDeprecated.deprecated_bool_differs); with that normalisation (norm_dep) the
+     round trip holds for bool-valued .deprecated too (C01_tree_level3_deprecated_bool).
+   - DOTTED NAMES at level 3 (domain sdtree_ok = the dtree_ok shape with the attribute conditions of stree_ok_d; a
+     prefix scope carries no attribute): the level-3 text parses back to the whole tree (C01_tree_level3_dotted);
+     without deprecated definitions (domain ldtree_ok) at every level >= 1, the re-parsed tree carrying the
+     attributes visible at the level (C01_tree_levels_dotted, C01_tree_level2_dotted).
    - EVERY PARSED DOCUMENT without deprecated definitions and include lines lies in dtree_ok, hence for every
      such text: parse, print at level 0 (any width), parse again gives the same tree (C01_parsed_trees_in_domain,
      C01_parse_print_parse_level0) - the property's own quantifier "for every PHIL text that parses".
    Decided by correspondence + oracle only (every run): re-flowed (wrapped) string attributes, .type,
-   .call, levels 1/2 views, deprecated definitions, dotted names at level 3. *)
+   .call, dotted names together with deprecated definitions at level 2. *)
 From Coq Require Import List Ascii String ZArith.
-From Phil Require Import Base Tokenizer Tree Parser Show QuoteProofs WordsRoundtrip ShowErase TreeRoundtrip ParserShape ShowReparse ShowReparseAttrs.
+From Phil Require Import Base Tokenizer Tree Parser Show QuoteProofs WordsRoundtrip ShowErase TreeRoundtrip ParserShape ShowReparse ShowReparseAttrs ShowReparseDeprecated.
 Import ListNotations.
 
 Theorem C01_quoted_word_roundtrip : forall q s rest line,
@@ -109,6 +120,58 @@ Theorem C01_tree_level2_strings : forall o l w text,
   exists l', parse o text = Ok l' /\ map erase_obj l' = map erase3 l.
 Proof. exact parse_as_str_level2_strings. Qed.
 Print Assumptions C01_tree_level2_strings.
+
+Theorem C01_tree_level3_deprecated : forall o l w text,
+  forallb (stree_ok_d (width_of w) []) l = true ->
+  as_str l [] None 3 w = Ok text ->
+  exists l', parse o text = Ok l' /\ map erase_obj l' = map erase3 l.
+Proof. exact parse_as_str_level3_deprecated. Qed.
+Print Assumptions C01_tree_level3_deprecated.
+
+Theorem C01_tree_level2_hides_deprecated : forall o l w text,
+  forallb (stree_ok_d (width_of w) []) l = true ->
+  as_str l [] None 2 w = Ok text ->
+  exists l', parse o text = Ok l' /\ map erase_obj l' = map erase3 (drop_deprecated l).
+Proof. exact parse_as_str_level2_hides_deprecated. Qed.
+Print Assumptions C01_tree_level2_hides_deprecated.
+
+(* .deprecated holding a bool (a tree built by a program): the text stands for the tree in which the bool True has
+   become the string "True" and False is unset (norm_dep) *)
+Theorem C01_tree_level3_deprecated_bool : forall o l w text,
+  forallb (stree_ok_b (width_of w) []) l = true ->
+  as_str l [] None 3 w = Ok text ->
+  exists l', parse o text = Ok l' /\ map erase_obj l' = map erase3 (map norm_dep l).
+Proof. exact parse_as_str_level3_deprecated_bool. Qed.
+Print Assumptions C01_tree_level3_deprecated_bool.
+
+(* dotted names (the prefix-scope shape scope.adopt builds) at level 3, with string-valued attributes and
+   deprecated definitions; the dot-free domain stree_ok_d is contained in it *)
+Theorem C01_tree_level3_dotted : forall o l w text,
+  forallb (sdtree_ok (width_of w) [] []) l = true ->
+  as_str l [] None 3 w = Ok text ->
+  exists l', parse o text = Ok l' /\ map erase_obj l' = map erase3 l.
+Proof. exact parse_as_str_level3_dotted. Qed.
+Print Assumptions C01_tree_level3_dotted.
+
+Theorem C01_level3_dotted_domain_contains_dotfree : forall w o p, stree_ok_d w p o = true -> sdtree_ok w [] p o = true.
+Proof. exact stree_ok_d_sdtree_ok. Qed.
+Print Assumptions C01_level3_dotted_domain_contains_dotfree.
+
+(* dotted names at every attributes level >= 1 (no deprecated definitions): the re-parsed tree carries the
+   attributes visible at the level; at level 2 these are all the set ones (erase3) *)
+Theorem C01_tree_levels_dotted : forall lvl o l w text, (0 <? lvl)%Z = true ->
+  forallb (ldtree_ok (width_of w) [] []) l = true ->
+  as_str l [] None lvl w = Ok text ->
+  exists l', parse o text = Ok l' /\ map erase_obj l' = map (eraseL lvl) l.
+Proof. exact parse_as_str_levels_dotted. Qed.
+Print Assumptions C01_tree_levels_dotted.
+
+Theorem C01_tree_level2_dotted : forall o l w text,
+  forallb (ldtree_ok (width_of w) [] []) l = true ->
+  as_str l [] None 2 w = Ok text ->
+  exists l', parse o text = Ok l' /\ map erase_obj l' = map erase3 l.
+Proof. exact parse_as_str_level2_dotted. Qed.
+Print Assumptions C01_tree_level2_dotted.
 
 (* the simpler brace-only domain is contained in dtree_ok *)
 Theorem C01_domain_contains_plain_trees : forall o, tree_ok o = true -> dtree_ok [] o = true.
